@@ -235,6 +235,7 @@ func (selector *CoinSelector) SortedSearch() ([]*Utxo, uint64, uint64) {
 			if lr >= selector.maxP {
 				if txscript.IsPayToScriptHash(u.ScriptPubkey) {
 					selection = selection[:len(selection)-1]
+					sum -= u.Value
 					continue
 				}
 				return nil, 0, 0
@@ -243,7 +244,7 @@ func (selector *CoinSelector) SortedSearch() ([]*Utxo, uint64, uint64) {
 				pass = 1
 			}
 		case 1:
-			feeReplaced, lr := selector.getLossRatio(append(selection[:len(selection)-1:cap(selection)-1], u))
+			feeReplaced, lr := selector.getLossRatio(append(selection[:len(selection)-1:len(selection)-1], u))
 			if sumTemp := sum - selection[len(selection)-1].Value + u.Value; (sumTemp == selector.target ||
 				sumTemp >= selector.target+selector.mc) && lr < selector.maxP {
 				fee, sum = feeReplaced, sumTemp
